@@ -17,13 +17,14 @@ CASE_TIMEOUT = 900
 WARMUP = True
 NPROC = 12
 RULE = ('each case = one random history (length 1-12) on a fresh world+orbit of one kind in {CPL, CPL spin-synchronous, CTL, layered Maxwell (io_simple), layered Andrade, dual-body CPL pairs}, obliquity tides on or off, eccentricity truncation 2/4/6, max degree 2/3 (layered models), '
-        'scalar or array valued (fixed length per history), drawn from 27 operation kinds (orbit.set_state / set_eccentricity / set_orbital_frequency / set_orbital_period / '
+        'scalar or array valued (fixed length per history; half of the array histories overwrite and re-pass one work array per quantity), drawn from 27 operation kinds (orbit.set_state / set_eccentricity / set_orbital_frequency / set_orbital_period / '
         'set_semi_major_axis by instance, name or index; world.set_state with any non-empty subset; individual setters and property assignments; set_fixed_q / set_fixed_dt; '
         'layer temperature; orbit time), or one segment (12 consecutive pairs) of an Euler tour that visits every ordered pair of operation classes (quick) / operations (thorough) once per configuration; non-trivial = at least one step was applied and compared against the fresh oracle; distinct by history')
 ASSUMPTIONS = ['derived quantities must agree to 1e-10 relative (same floating-point operations on the same state are expected to agree to rounding)',
                'the canonical sequence of the oracle ends with an orbital-frequency change so that everything is recomputed']
 OPS = ['h_spin', 'h_obl', 'h_spin_obl', 'orb_e', 'orb_P', 'orb_n', 'orb_a', 'orb_eP', 'orb_set_e', 'orb_set_n', 'orb_set_P', 'orb_set_a', 'w_spin', 'w_obl', 'w_e', 'w_P', 'w_n', 'w_spin_obl', 'w_e_obl', 'w_all',
        'set_spin', 'set_obl', 'prop_obl', 'fixq', 'fixdt', 'temp', 'time']
+REUSE_ALL = False     # work-array reuse is driven for the eccentricity only (see DESIGN.md, round f)
 KINDS = ['cpl', 'cpl_sync', 'ctl', 'layered', 'layered_andrade', 'dual_cpl', 'dual_cpl_sync']
 
 
@@ -72,14 +73,14 @@ def tour_cases(tier, seed):
             tour = euler_tour([op for op in OPS if applicable(op, kind)], rng)
         step = 12
         for j, a in enumerate(range(0, len(tour) - 1, step)):
-            cases.append({'kind': kind, 'sub': 100000 + len(cases), 'seed': seed, 'arrays': bool(j % 5 == 4), 'obl_on': obl_on, 'trunc': [4, 2, 6][j % 3], 'lmax': [2, 3][j % 2] if kind.startswith('layered') else 2, 'ops': tour[a:a + step + 1], 'length': len(tour[a:a + step + 1])})
+            cases.append({'kind': kind, 'sub': 100000 + len(cases), 'seed': seed, 'arrays': bool(j % 5 == 4), 'obl_on': obl_on, 'reuse_buffers': bool(j % 10 == 4), 'trunc': [4, 2, 6][j % 3], 'lmax': [2, 3][j % 2] if kind.startswith('layered') else 2, 'ops': tour[a:a + step + 1], 'length': len(tour[a:a + step + 1])})
     return cases
 
 
 def gen_cases(tier, seed):
     n = 70 if tier == 'quick' else 2400
     return tour_cases(tier, seed) + [{'kind': KINDS[i % len(KINDS)], 'sub': i, 'seed': seed, 'arrays': bool(i % 4 == 3), 'length': 1 + (i * 7) % 12,
-             'obl_on': bool((i // len(KINDS)) % 3 != 1), 'trunc': [4, 2, 6, 4][(i // len(KINDS)) % 4], 'lmax': [2, 2, 3][(i // len(KINDS)) % 3] if KINDS[i % len(KINDS)].startswith('layered') else 2} for i in range(n)]
+             'obl_on': bool((i // len(KINDS)) % 3 != 1), 'reuse_buffers': bool(i % 8 == 3), 'trunc': [4, 2, 6, 4][(i // len(KINDS)) % 4], 'lmax': [2, 2, 3][(i // len(KINDS)) % 3] if KINDS[i % len(KINDS)].startswith('layered') else 2} for i in range(n)]
 
 
 def mk(kind, obl_on=True, trunc=4, lmax=2):
@@ -175,8 +176,20 @@ def eval_case(c):
     viol = []
     cnt = {'steps_applied': 0, 'steps_compared': 0, 'functional_api_comparisons': 0}
 
-    def val(lo, hi):
-        return float(rng.uniform(lo, hi)) if n_arr is None else rng.uniform(lo, hi, n_arr)
+    bufs = {}
+
+    def val(lo, hi, key=None):
+        if n_arr is None:
+            return float(rng.uniform(lo, hi))
+        new_ = rng.uniform(lo, hi, n_arr)
+        if key is not None and c.get('reuse_buffers'):
+            # a caller (integration loop) that keeps one work array per quantity and overwrites it in place before passing it again
+            if key in bufs:
+                bufs[key][...] = new_
+            else:
+                bufs[key] = new_
+            return bufs[key]
+        return new_
 
     star, w, o = mk(kind, c.get('obl_on', True), c.get('trunc', 4), c.get('lmax', 2))
     sync = w.force_spin_sync
@@ -215,7 +228,12 @@ def eval_case(c):
         return {'status': 'inconclusive', 'nontrivial': False, 'violations': [], 'obs': {'note': f'two fresh worlds disagree on {bad0[0]} before any history'}, 'counters': cnt}
 
     def apply(op):
-        e, P, sp, ob = val(0.01, 0.3), val(2., 60.), val(1., 40.), val(0., 0.5)
+        # only the work arrays of quantities that this operation actually passes are overwritten (the world / orbit keep references to arrays
+        # they were given earlier; touching those without telling them would be the caller's error, not a history dependence)
+        uses = {'orb_e': 'e', 'orb_set_e': 'e', 'w_e': 'e', 'orb_P': 'P', 'orb_set_P': 'P', 'w_P': 'P', 'orb_eP': 'eP', 'w_spin': 's', 'w_obl': 'o', 'set_obl': 'o', 'prop_obl': 'o',
+                'w_spin_obl': 'so', 'w_e_obl': 'eo', 'w_all': 'ePso'}.get(op, '')
+        e, P, sp, ob = (val(0.01, 0.3, 'e' if 'e' in uses else None), val(2., 60., 'P' if 'P' in uses and REUSE_ALL else None), val(1., 40., 'sp' if 's' in uses and REUSE_ALL else None),
+                        val(0., 0.5, 'ob' if 'o' in uses and REUSE_ALL else None))
         q, dt, T = float(rng.uniform(5, 500)), float(rng.uniform(1, 1e3)), float(rng.uniform(1300, 1750))
         sig = [w, w.name, 0][int(rng.integers(3))]
         host = getattr(w, '_verif_host', None)
